@@ -60,9 +60,17 @@ def enc_rat(q):
     return str(q.numerator) if q.denominator == 1 else f"{q.numerator}/{q.denominator}"
 
 
+def exact_lag_known(p):
+    """percentages for which the unchanged float evaluation int(n*p/100) is provably floor(n*dec(p)/100):
+    p exactly representable (integers, dyadic fractions: n*p is exact and /100 is correctly rounded) and the ADC's 99.99"""
+    return Fraction(p) == dec_frac(p) or p == 99.99
+
+
 def lag_candidates(n, p):
-    a = Fraction(n) * Fraction(p) / 100
     b = Fraction(n) * dec_frac(p) / 100
+    if exact_lag_known(p) and n < 10 ** 7:
+        return {math.floor(b)} if b >= 0 else set()          # the statement's lag, nothing else
+    a = Fraction(n) * Fraction(p) / 100
     c = {math.floor(a), math.floor(b)}
     for q in (a, b):
         r = round(q)
@@ -193,6 +201,22 @@ def gen_cases(rng, tier):
             p = 50.0
         form = "float" if any(isinstance(v, float) and not float(v).is_integer() for v in data) else None
         cases.append(_sint_case(rng, data, p, form=form, model=safe_p(n, p)))
+    # directed: n*p/100 is an exact integer (integer p, n*p = 0 mod 100): lag must be exactly floor(p*n/100)
+    NS = [20, 25, 50, 90, 100, 150, 200, 500, 1000, 2000]
+    pairs = [(n, p) for n in NS for p in range(1, 100) if (n * p) % 100 == 0]
+    directed = [(100, 29), (100, 57), (100, 58), (50, 58), (90, 70), (200, 29), (100, 7), (100, 14), (200, 57), (500, 58)]
+    directed += [pairs[rng.randrange(len(pairs))] for _ in range(60 if not thorough else 600)]
+    if thorough:
+        directed += [(n, p) for (n, p) in pairs if n <= 200]
+    for n, p in directed:
+        for ties in (False, True):
+            if ties:
+                data = [float(rng.randint(0, max(2, n // 4))) for _ in range(n)]
+            else:
+                data = rng.sample(range(-4 * n, 4 * n), n)
+                data = [float(v) / 4 for v in data]
+            cases.append({"kind": "sint", "data": data, "p": rng.choice([p, float(p)]), "form": "float", "model": True,
+                          "directed": "integral-lag"})
     for data, p in [([0, 0, 0, 5, 6, 7, 9, 9, 9], 25), ([3, 1, 2], 50), ([1.0, 2.0], 10), ([1, 2, 3], 50), ([5], 50), ([5], 99.99),
                     ([1, 1, 1, 1], 50), ([0, 0, 0, 5, 6, 7, 9, 9, 9], 50), ([0, 1, 1, 2, 5, 5, 6, 9], 25),
                     ([0, 2, 2, 4, 4, 6, 6, 8], 12.5), ([0, 0, 1, 1, 2, 2], 37.5)]:
@@ -227,6 +251,13 @@ def gen_cases(rng, tier):
             exact = False
         cases.append({"kind": "adc", "spec": spec, "n": nb, "otype": ot, "exact": exact,
                       "input": rng.choice(["ndarray", "electrical_signal"])})
+    # directed: record lengths where 99.99 % of n is (or is next to) an exact integer, one clear extreme sample on each side
+    for N in [10000, 20000, 10001, 9999] + ([30000, 50000] if thorough else []):
+        for ot in ["n", "v"]:
+            spec = {"dist": "gauss", "N": N, "seed": rng.getrandbits(32), "sigma": 1.0, "mu": 0.0,
+                    "outliers": [[rng.randrange(N // 2), -50.0 - rng.random()], [N // 2 + rng.randrange(N // 2), 60.0 + rng.random()]]}
+            cases.append({"kind": "adc", "spec": spec, "n": rng.choice([3, 8, 12]), "otype": ot, "exact": False,
+                          "input": rng.choice(["ndarray", "electrical_signal"]), "directed": "integral-lag"})
     for spec in [{"data": [0.0, 1, 2, 3, 4, 5, 6, 7, 8]}, {"data": [0.5, 1.5, 2.5, 3.5, 0, 7]}, {"data": [0.0, 1.0, 2.0]},
                  {"data": [0.0, 1.0]}, {"data": [3.0, -1.0]}]:
         for nb in [1, 2, 3]:
@@ -499,6 +530,8 @@ def features(case, res):
         f.append("sint:ties" if len(set(case["data"])) < n else "sint:distinct")
         if not case.get("model", True):
             f.append("sint:oracle-only")
+        if case.get("directed"):
+            f.append("sint:directed-integral-lag")
         if res["status"] == "ok":
             lags = lag_candidates(n, case["p"])
             f.append("sint:lag=0" if 0 in lags else "sint:lag>0")
@@ -520,6 +553,8 @@ def features(case, res):
         f.append(f"adc:n={case['n']}")
         f.append("adc:otype=" + case["otype"])
         f.append("adc:input=" + case["input"])
+        if case.get("directed"):
+            f.append("adc:directed-integral-lag")
         if res["status"] == "ok" and res["vmin"] is not None:
             if res["vmin"] == res["vmax"]:
                 f.append("adc:degenerate-range")
